@@ -358,21 +358,33 @@ impl Ctx {
         self.rec.oracle(got == exp, key, || format!("{op}: try_new gave {got:?}, the property demands {exp:?} (set {set} signed by key {}, slot {} slice {})", self.sets[set].key, self.sets[set].wires[0].slot, self.sets[set].wires[0].slice_index));
     }
 
-    /// `val` without the property oracle: only compared with the model and counted under `what:<verdict>`
-    fn val_observe(&mut self, what: &str, set: usize, i: usize, pk: usize, muts: &[Mut], rng: &mut Rng) -> Verdict {
-        let (w, _, _) = self.mutate(set, i, muts, rng);
-        let (got, _) = self.validate(&w, None, pk);
-        let ms = muts.iter().map(Mut::op).collect::<Vec<_>>().join(" ");
-        let out = match got {
-            Verdict::Ok => "ok",
-            Verdict::InvalidSignature => "InvalidSignature",
-            Verdict::Equivocation => "Equivocation",
-            Verdict::Undecodable => "undecodable",
-        };
-        self.rec.step(format!("val {set} {i} - {pk} {ms}").trim_end(), out);
-        self.rec.count(&format!("{what}:{out}"));
-        self.class = fnv(self.class, out);
-        got
+    /// Shred `i` of a set whose signed tree has height h < 6, relabelled by a relay as `n` = i + k * 2^h (same payload,
+    /// same path, hence the same derived root): not a shred of that slice - it must be refused (`InvalidSignature`:
+    /// nothing the leader can be blamed for), also when the slice's own commitment is cached (the cache shortcut only
+    /// compares the derived root). Defect D32 of the pinned snapshot (`derive_root` ignores the index bits above the
+    /// path length).
+    fn val_alias(&mut self, set: usize, i: usize, n: usize, pk: usize, rng: &mut Rng) {
+        for cache in [None, Some(set)] {
+            let cached = match cache {
+                None => None,
+                Some(c) => match self.sets[c].commitment { Some(cm) => Some(cm), None => continue },
+            };
+            let muts = [Mut::Sidx(n as u64)];
+            let (w, _, _) = self.mutate(set, i, &muts, rng);
+            let (got, _) = self.validate(&w, cached.as_ref(), pk);
+            let out = match got {
+                Verdict::Ok => "ok",
+                Verdict::InvalidSignature => "InvalidSignature",
+                Verdict::Equivocation => "Equivocation",
+                Verdict::Undecodable => "undecodable",
+            };
+            let op = format!("val {set} {i} {} {pk} {}", cache.map(|c| c.to_string()).unwrap_or("-".into()), muts[0].op());
+            self.rec.step(&op, out);
+            self.rec.count(&format!("short-tree-index-alias:{out}"));
+            self.class = fnv(self.class, out);
+            let plen = w.path.len();
+            self.rec.oracle(got == Verdict::InvalidSignature, "short-tree-index-alias-accepted", || format!("{op}: shred {i} of a slice whose signed Merkle tree has height {plen} ({plen}-hash paths; slot {}, slice {}, signed by key {}), relabelled as index {n} = {i} + k * 2^{plen} (payload, path and derived root unchanged): try_new gave {got:?}, a shred is authentic only at the index its path proves", w.slot, w.slice_index, self.sets[set].key));
+        }
     }
 
     fn bs_new(&mut self) {
@@ -585,10 +597,9 @@ fn main() {
                         random_mut(&mut rng, &cx, x, j, other)
                     }
                 };
-                // `try_new` derives the root without asking that the path consumes the whole index: under a signed tree
-                // of height h < 6 the positions j + k * 2^h are aliases of j (observed below, not demanded here)
-                let alias = matches!(m, Mut::Sidx(n) if n < 64 && plen < 6 && (n as usize) % (1 << plen) == j % (1 << plen));
-                if !alias && !muts.iter().any(|y| y.field() == m.field()) {
+                // (an index relabel j + k * 2^h under a signed tree of height h < 6 keeps the derived root: it must be
+                // refused all the same - `expected` asks whether the image is a produced shred *at the index it claims*)
+                if !muts.iter().any(|y| y.field() == m.field()) {
                     muts.push(m);
                 }
             }
@@ -597,7 +608,7 @@ fn main() {
         }
         if plen < 6 {
             let n = (j + (1 << plen) * (1 + rng.below((64 >> plen) as u64 - 1) as usize)) % 64;
-            if n != j { cx.val_observe("short-tree-index-alias", x, j, 1, &[Mut::Sidx(n as u64)], &mut rng); }
+            if n != j { cx.val_alias(x, j, n, 1, &mut rng); }
         }
         let class = cx.class;
         cx.rec.end_case(class, true);
